@@ -9,6 +9,7 @@ of every state `(run {} evs).1`.
 -/
 import Mqtt.Proofs.BrokerLifeTrie
 import Mqtt.Proofs.BrokerRefineCor
+import Mqtt.Proofs.BrokerRefineFail
 
 namespace Mqtt.Properties.C10
 open Mqtt.Iface.Broker Mqtt.Model.Broker Mqtt.Proofs.BrokerLife
@@ -345,5 +346,112 @@ theorem C10_refines_reference (es : List Ev) (hok : okRun {} es = true) (c : Nat
   · obtain ⟨k, hk, hkc, hp⟩ := Mqtt.Proofs.BrokerRefine.takeOver_prior hR c req hne
       (Mqtt.Proofs.BrokerRefine.realCid_of_accepts hacc hne) c0 σ hσ hcid
     exact .inr ⟨c0, σ, k, hσ, hcid, hk, hkc, t1, t2, by rw [t2]; exact hp⟩
+
+/-! ### 7. a handshake whose CONNACK cannot be written -/
+
+open Mqtt.Proofs.BrokerRefine (EvX okRunX runX specRunX R AcceptsAll) in
+/-- **Refinement with failed handshakes (Proofs/BrokerRefineFail.lean: `BrokerX_refines_spec`).**
+A history may contain, besides the events of `Ev`, first packets whose answer cannot be
+written to the connection (`EvX.failFirst`: the peer has gone; model `connectFail`, reference
+broker `Spec.Broker.connectFail`).  Along every such history admitted by `okRunX`, started in
+the initial states, the output of every event is accepted by the reference broker's output for
+it and the states stay related (`R`) - in particular (`R.stored`) the model resumes exactly the
+sessions the reference broker stores, with the same subscriptions and open QoS 2 exchanges:
+a failed handshake loses nothing of a persistent session. -/
+theorem C10_failed_handshake_refines (es : List EvX) (hok : okRunX {} es = true) :
+    R (runX {} es).1 (specRunX {} es).1 ∧ AcceptsAll (specRunX {} es).2 (runX {} es).2 :=
+  Mqtt.Proofs.BrokerRefine.BrokerX_refines_spec es hok
+
+/-- Reference broker: an acceptable CONNECT with CleanSession=0 of a client that has a stored
+session and no live connection, whose CONNACK cannot be written, leaves the stored session of
+that client exactly as it was, and every other stored session, every held subscription, the
+retained messages and the connections as well. -/
+theorem C10_failed_handshake_keeps_session (s : Mqtt.Spec.Broker.S) (c : Nat) (req : Connect) (a : Bool)
+    (st : List (Bytes × Nat) × List (Nat × Bool × Pub))
+    (href : Mqtt.Spec.Broker.refusals req a = []) (hne : req.clientId ≠ []) (hcl : req.clean = false)
+    (hst : s.stored.lookup req.clientId = some st)
+    (hlive : s.conns.find? (fun x => x.cid == req.clientId) = none) :
+    (Mqtt.Spec.Broker.connectFail s c (.connect req) a).1.stored.lookup req.clientId = some st ∧
+    (∀ x, x ≠ req.clientId →
+      (Mqtt.Spec.Broker.connectFail s c (.connect req) a).1.stored.lookup x = s.stored.lookup x) ∧
+    (Mqtt.Spec.Broker.connectFail s c (.connect req) a).1.held = s.held ∧
+    (Mqtt.Spec.Broker.connectFail s c (.connect req) a).1.rets = s.rets ∧
+    (Mqtt.Spec.Broker.connectFail s c (.connect req) a).1.conns = s.conns := by
+  have hemp : req.clientId.isEmpty = false := by
+    cases h : req.clientId with
+    | nil => exact absurd h hne
+    | cons _ _ => rfl
+  have hto : Mqtt.Spec.Broker.takeOver s (.connect req) a = (s, []) := by
+    unfold Mqtt.Spec.Broker.takeOver
+    simp only [href, List.isEmpty_nil, Bool.not_true, hemp, Bool.or_self, Bool.false_eq_true, ↓reduceIte, hlive]
+  have hXs : Mqtt.Proofs.BrokerRefine.specCid c req = req.clientId := by
+    unfold Mqtt.Proofs.BrokerRefine.specCid; simp [hemp]
+  have hcls : Mqtt.Proofs.BrokerRefine.specClean req = false := by
+    unfold Mqtt.Proofs.BrokerRefine.specClean; simp [hcl, hemp]
+  rw [Mqtt.Proofs.BrokerRefine.spec_connectFail_eq, hto,
+    Mqtt.Proofs.BrokerRefine.spec_firstFail_accepted s c req a href]
+  refine ⟨?_, ?_, rfl, rfl, rfl⟩
+  · have := Mqtt.Proofs.BrokerRefine.failStored_lookup_keep s c req hcls
+    rw [hXs, hst] at this
+    exact this
+  · intro x hx
+    exact Mqtt.Proofs.BrokerRefine.failStored_lookup_ne s c req x (by rw [hXs]; exact hx)
+
+open Mqtt.Proofs.BrokerRefine (resumable) in
+/-- Model: an accepted CONNECT with CleanSession=0 of a client that has no live connection
+(the take-over does nothing) and a resumable session object `σ` in the store, whose CONNACK
+cannot be written: the store still holds a resumable session object for the client - the same
+object (`ref`), with the same subscription list and the same inbound QoS 2 queue -, and the
+subscription tries and the connection table are untouched. -/
+theorem C10_failed_handshake_model_keeps_session (b : B) (_hi : Inv b) (c : Nat) (req : Connect) (a : Bool)
+    (σ : Sess) (hacc : accepts (.connect req) a = true) (hcl : req.clean = false) (hne : req.clientId ≠ [])
+    (hfree : sameClient b req.clientId = []) (hres : resumable b req.clientId = some σ) :
+    (∃ σ', resumable (connectFail b c (.connect req) a).1 req.clientId = some σ' ∧
+      σ'.topics = σ.topics ∧ σ'.pub2in = σ.pub2in ∧ σ'.ref = σ.ref) ∧
+    (connectFail b c (.connect req) a).1.topics = b.topics ∧
+    (connectFail b c (.connect req) a).1.conns = b.conns := by
+  have hemp : req.clientId.isEmpty = false := by
+    cases h : req.clientId with
+    | nil => exact absurd h hne
+    | cons _ _ => rfl
+  have hto : takeOver b (.connect req) a = (b, []) := by
+    rw [takeOver_accepted b req a hacc, hfree]
+    simp only [hemp, Bool.false_eq_true, ↓reduceIte, Mqtt.Proofs.Connect.stopAll_nil]
+  have hX : effCid c req = req.clientId := by unfold effCid; simp [hemp]
+  have hec : effClean req = false := by unfold effClean; simp [hemp, hcl]
+  have hresd : resumed b c req = some σ := by
+    have : resumed b c req = resumable b req.clientId := by
+      unfold resumed resumable; simp [hec, hX]
+    rw [this]; exact hres
+  obtain ⟨_, hst, hσ, _⟩ := resumed_some hresd
+  rw [hX] at hst
+  have hfail : Mqtt.Proofs.BrokerRefine.failed b c req = b.setSess (updSess σ req) := by
+    unfold Mqtt.Proofs.BrokerRefine.failed; rw [hresd]
+  rw [Mqtt.Proofs.BrokerRefine.connectFail_eq, hto,
+    Mqtt.Proofs.BrokerRefine.firstFail_accepted b c req a hacc, hfail]
+  refine ⟨⟨updSess σ req, ?_, rfl, rfl, rfl⟩, rfl, rfl⟩
+  unfold resumable
+  show ((b.storeGet req.clientId).bind (b.setSess (updSess σ req)).getSess).filter _ = _
+  rw [hst]
+  simp only [Option.bind_some]
+  have hr : (updSess σ req).ref = σ.ref := rfl
+  rw [← hr, getSess_setSess b (updSess σ req)]
+  have : (updSess σ req).clean = false := hec
+  simp [Option.filter, this]
+
+/-- non-vacuity: "A" (persistent, subscribed to "w" at QoS 2 and "a/b" at QoS 1) has lost its
+connection; a CONNECT of "A" with CleanSession=0 on connection 3 cannot be answered (only the
+close is seen, no connection exists, the tries are as before); the next CONNECT of "A" with
+CleanSession=0, on connection 4, is answered SessionPresent=1 and holds the subscriptions again. -/
+example :
+    let b := (run Ex.base2 [.close 1]).1
+    let b1 := (connectFail b 3 (.connect (Ex.conn Ex.idA false)) true).1
+    let b2 := (connect b1 4 (.connect (Ex.conn Ex.idA false)) true).1
+    (connectFail b 3 (.connect (Ex.conn Ex.idA false)) true).2 = [.closed 3] ∧
+    b1.alive 3 = false ∧ b1.storeGet Ex.idA = some 1 ∧
+    (b1.getSess 1).map (·.topics) = some [(Ex.tW, 2), (Ex.tAB, 1)] ∧
+    b1.topics.subscribers Ex.tAB 1 = some [(2, 0)] ∧
+    (connect b1 4 (.connect (Ex.conn Ex.idA false)) true).2 = [.send 4 (.connack true 0)] ∧
+    b2.topics.subscribers Ex.tAB 1 = some [(2, 0), (4, 1)] := by decide
 
 end Mqtt.Properties.C10
